@@ -833,6 +833,15 @@ VSattach(HFILEID     f,    /* IN: file handle */
         if (acc_mode == 'r')
             HGOTO_ERROR(DFE_BADACC, FAIL);
 
+        /* a new vdata cannot be created in a file opened read-only */
+        {
+            char *file_name   = NULL;
+            int   file_access = 0;
+            int   file_attach = 0;
+            if (Hfidinquire(f, &file_name, &file_access, &file_attach) == FAIL || !(file_access & DFACC_WRITE))
+                HGOTO_ERROR(DFE_BADACC, FAIL);
+        }
+
         /* otherwise 'w' */
         /* allocate space for vs,  & zero it out  */
         if ((vs = VSIget_vdata_node()) == NULL)
